@@ -228,6 +228,12 @@ def _scenarios(prop, tier, seed=0):
             L.append(S('c13_p1_desync_suspend_resume', [T('A', ('desync', 0), ('suspend', 0, {'as': 's'}), ('desync', 0), ('block_on', 's'), ('resume', 's', 'resume'))],
                        pool_max=1, R=3, B=18, oracles=BASE + ('deadlock', 'suspend', 'quiescent_complete')))
             pass
+        # a sync (and a desync) from another thread while the queue is suspended (set-up prefix: the suspend operation has run on the pool thread and its
+        # future has resolved): they must wait for the resumer, used / dropped by the first thread at a solver-chosen point, and complete afterwards
+        for how in ('resume', 'drop'):
+            if q and how == 'drop': continue
+            L.append(S('c13_p1_sync_while_suspended_%s_su' % how, [T('A', ('suspend', 0, {'as': 's'}), ('block_on', 's'), ('wait_gate', 5), ('resume', 's', how)), T('B', ('sync', 0)), T('W', ('open_gate', 5))],
+                       pool_max=1, setup='A! P0! A!', R=2, B=26, oracles=BASE + ('deadlock', 'suspend', 'results', 'quiescent_complete')))
         if True:
             L.append(S('c13_p0_suspend_resume_sync', [T('A', ('suspend', 0, {'as': 's'}), ('block_on', 's'), ('resume', 's', 'resume'), ('sync', 0))], pool_max=0, R=2, B=26,
                        oracles=BASE + ('deadlock', 'suspend', 'results')))
